@@ -93,6 +93,14 @@ template <class PH> static std::string cert_line(const char* tag, const PH& p, d
   return o.str();
 }
 
+// the members of a REAL certificate object (computed in place by the library on the very object)
+static std::string bc_line(const char* tag, const BHRZ03_Certificate& c) {
+  OS o; o << tag << " " << c.affine_dim << " " << c.lin_space_dim << " " << c.num_constraints << " " << c.num_points
+          << " " << c.num_rays_null_coord.size();
+  for (size_t i = 0; i < c.num_rays_null_coord.size(); ++i) o << " " << c.num_rays_null_coord[i];
+  return o.str();
+}
+
 // ---- H79
 template <class PH> static void h79_step(long id, const PH& x0, const PH& y0, dimension_type n) {
   const Topology topol = x0.topology();
@@ -168,6 +176,10 @@ template <class PH> static void bhrz_step(long id, const PH& x0, const PH& y0, d
         jl(ymin_line("YA", ya)); jl(state_line("X", xa));
         jl(cert_line("CYA", ya, n)); jl(cert_line("CXA", xa, n));
         const BHRZ03_Certificate y_cert(ya);
+        jl(bc_line("BCY", y_cert));
+        // (what `y_cert.compare(x)` computes for x is not observable: it reads the rays after one more
+        //  minimize() than the constructor does, and BHRZ03_Certificate is not a function of the point set,
+        //  KF-C08-5/6/9/10; the driver recomputes it from the CXA line and reports a disagreement as `precheck`)
         bool stab = y_cert.is_stabilizing(xa);
         bool ycx = ya.contains(xa);
         { OS o; o << "PRE stab=" << (stab ? 1 : 0) << " ycx=" << (ycx ? 1 : 0); jl(o.str()); }
@@ -181,13 +193,16 @@ template <class PH> static void bhrz_step(long id, const PH& x0, const PH& y0, d
           { Constraint_System sc(sel); H79.add_recycled_constraints(sc); }
           H79.minimize();
           jl(rows_line("H79", H79.con_sys, nc)); jl(set_line("HK", H79, n)); jl(cert_line("CH79", H79, n));
+          { PH hc(H79); const BHRZ03_Certificate h_cert(hc); jl(bc_line("BCH", h_cert)); }
           int tech = 4;
           PH res(H79);
-          { PH x1(xa); if (x1.BHRZ03_combining_constraints(ya, y_cert, H79, nsel)) { tech = 1; res = x1; } }
-          if (tech == 4) { PH x2(xa); if (x2.BHRZ03_evolving_points(ya, y_cert, H79)) { tech = 2; res = x2; } }
-          if (tech == 4) { PH x3(xa); if (x3.BHRZ03_evolving_rays(ya, y_cert, H79)) { tech = 3; res = x3; } }
+          std::string bct;      // the certificate of the accepted candidate, computed on the very object the technique left
+          { PH x1(xa); if (x1.BHRZ03_combining_constraints(ya, y_cert, H79, nsel)) { tech = 1; { const BHRZ03_Certificate t(x1); bct = bc_line("BCT", t); } res = x1; } }
+          if (tech == 4) { PH x2(xa); if (x2.BHRZ03_evolving_points(ya, y_cert, H79)) { tech = 2; { const BHRZ03_Certificate t(x2); bct = bc_line("BCT", t); } res = x2; } }
+          if (tech == 4) { PH x3(xa); if (x3.BHRZ03_evolving_rays(ya, y_cert, H79)) { tech = 3; { const BHRZ03_Certificate t(x3); bct = bc_line("BCT", t); } res = x3; } }
           { OS o; o << "TECH " << tech; jl(o.str()); }
           jl(set_line("TK", res, n)); jl(cert_line("CT", res, n));
+          if (!bct.empty()) jl(bct);
         }
       }
     } else jl("TRIVIAL");
@@ -200,7 +215,13 @@ template <class PH> static void bhrz_step(long id, const PH& x0, const PH& y0, d
       xr.BHRZ03_widening_assign(yr, tp0 < 0 ? nullptr : &tp);
       OS o; o << "R tp0=" << tp0 << " tp=" << (tp0 < 0 ? -1 : (long)tp) << " raw 0"; jl(o.str());
       jl(set_line("RK", xr, n));
-      if (tp0 < 0) { jl(cert_line("CY", y0, n)); jl(cert_line("CR", xr, n)); jl(set_line("YAK", yr, n)); }
+      if (tp0 < 0) {
+        jl(cert_line("CY", y0, n)); jl(cert_line("CR", xr, n)); jl(set_line("YAK", yr, n));
+        if (!xr.is_empty() && !yr.is_empty()) {     // the certificates as the library computes them on the objects of the call
+          const BHRZ03_Certificate ry(yr); jl(bc_line("BRY", ry));
+          const BHRZ03_Certificate rr(xr); jl(bc_line("BRR", rr));
+        }
+      }
     } catch (...) { jl("exc " + pplv::exc_class() + " call"); }
   }
   jl("endstep");
